@@ -290,9 +290,12 @@ fn c19(rep: &mut Report, args: &Args, behaviours: &[Value], shard: usize, nshard
     // clients that are gone when the listener gets to them: the set-up of a connection whose peer has reset it fails too
     // (and whatever the failure path does with the socket must cope with a peer that is not there)
     for n in if args.thorough() { vec![2usize, 3, 5, 9] } else { vec![3usize, 5] } {
-        let mut quiet = vec![false; n]; quiet[0] = true;
-        let mut reset = vec![true; n]; reset[n - 1] = false;
-        let mut fail = vec![true; n]; fail[n - 1] = false;
+        // the last two are ordinary clients: one in the burst, one that comes when the listener has dealt with the burst
+        // (whatever is still queued when a listener goes away is closed by the kernel, which looks like a dropped set-up)
+        let n = n + 1;
+        let mut quiet = vec![false; n]; quiet[0] = true; quiet[n - 1] = true;
+        let mut reset = vec![true; n]; reset[n - 1] = false; reset[n - 2] = false;
+        let mut fail = vec![true; n]; fail[n - 1] = false; fail[n - 2] = false;
         for held in [true, false] {
             plans.push((Plan { fail: fail.clone(), quiet: quiet.clone(), held, reset: reset.clone() }, Mode::Hook));
             if accepts { plans.push((Plan { fail: fail.clone(), quiet: quiet.clone(), held, reset: reset.clone() }, Mode::HookKeepaliveOk)); }
@@ -324,6 +327,9 @@ fn c19(rep: &mut Report, args: &Args, behaviours: &[Value], shard: usize, nshard
             let held = v == Verdict::Held;
             verdicts.push((v, seen));
             if held { break }
+        }
+        if std::env::var_os("VERIF_DEBUG_LISTENER").is_some() {
+            eprintln!("PLAN {} -> {:?}", beh, verdicts.iter().map(|(v, s)| (format!("{v:?}"), s.iter().map(|x| x.text()).collect::<Vec<_>>())).collect::<Vec<_>>());
         }
         rep.evals("C19", plan.n() as u64);
         let (last, seen) = verdicts.last().unwrap();
